@@ -79,9 +79,51 @@ theorem viewRes_state (s : State) (r : Except Err View) : (viewRes s r).1 = s :=
 theorem viewRes_fail (s : State) (r : Except Err View) (e : Err) (h : r = .error e) : viewRes s r = (s, .error e) := by
   subst h; rfl
 
-/-- an operation that is not a `fill` and fails has not changed the pool -/
+/-- a result that, if it is a failure, carries the pool `s` unchanged -/
+def Safe (s : State) (r : State × Res) : Prop := r.2.failed = true → r.1 = s
+
+theorem safe_same (s : State) (r : Res) : Safe s (s, r) := fun _ => rfl
+theorem safe_ok (s s' : State) (o : Out) : Safe s (s', .ok o) := fun h => by simp [Res.failed] at h
+theorem safe_bad (s : State) : Safe s (badOp s) := fun _ => rfl
+theorem safe_commit (s : State) (k : Nat) (r : Except Err Arr) : Safe s (commit s k r) := by
+  cases r with
+  | ok a => exact safe_ok _ _ _
+  | error e => exact safe_same _ _
+theorem safe_commitS (s : State) (k : Nat) (r : Except Err SArr) : Safe s (commitS s k r) := by
+  cases r with
+  | ok a => exact safe_ok _ _ _
+  | error e => exact safe_same _ _
+theorem safe_commitA (s : State) (k : Nat) (r : Except Err AArr) : Safe s (commitA s k r) := by
+  cases r with
+  | ok a => exact safe_ok _ _ _
+  | error e => exact safe_same _ _
+theorem safe_viewRes (s : State) (r : Except Err View) : Safe s (viewRes s r) := fun _ => viewRes_state s r
+theorem safe_redRes (s : State) (r : Except Err RedOut) : Safe s (redRes s r) := by
+  intro _
+  cases r with
+  | ok a => cases a <;> rfl
+  | error e => rfl
+
+/-- the new operation kinds (`step2`): every one that fails hands back the pool it was given, except `either_or`, whose
+    first conditional assignment stays when the second one is refused -/
+theorem step2_safe (s : State) (o : Op) (heor : ∀ k m c d, o ≠ .eor k m c d) : Safe s (step2 s o) := by
+  cases o
+  case eor k m c d => exact absurd rfl (heor k m c d)
+  all_goals simp only [step2]
+  all_goals repeat' split
+  all_goals first
+    | exact safe_bad _
+    | exact safe_same _ _
+    | exact safe_ok _ _ _
+    | exact safe_commit _ _ _
+    | exact safe_commitS _ _ _
+    | exact safe_commitA _ _ _
+    | exact safe_viewRes _ _
+    | exact safe_redRes _ _
+
+/-- an operation that is neither a `fill` nor an `either_or` assignment and fails has not changed the pool -/
 theorem fail_unchanged (s : State) (o : Op) (hf : (step s o).2.failed = true)
-    (hfill : ∀ k items, o ≠ .fill k items) : (step s o).1 = s := by
+    (hfill : ∀ k items, o ≠ .fill k items) (heor : ∀ k m c d, o ≠ .eor k m c d) : (step s o).1 = s := by
   have commit' : ∀ (k : Nat) (r : Except Err Arr), (commit s k r).2.failed = true → (commit s k r).1 = s := by
     intro k r h
     cases r with
@@ -218,6 +260,7 @@ theorem fail_unchanged (s : State) (o : Op) (hf : (step s o).2.failed = true)
     split
     · rename_i h1; simp [h1, Res.failed] at hf
     · rfl
+  | _ => exact step2_safe s _ heor hf
 
 /-! ### `resize`: which extent lists are refused -/
 
@@ -726,5 +769,113 @@ theorem al2Run_err (R C : Nat) (hC : 0 < C) (ps : List Piece) (al : Al2) (hl : a
         cases this with
         | inl h => exact h
         | inr h => subst h; exact absurd rfl hnw
+
+/-! ### index arithmetic of the reductions along a dimension and of `diag_vector(expression)` -/
+
+/-- a multi-index inside the extents, position by position -/
+abbrev Bounded (idx dims : List Nat) : Prop := List.Forall₂ (· < ·) idx dims
+
+theorem prod_foldl (a : Nat) (ds : List Nat) : ds.foldl (· * ·) a = a * ds.foldl (· * ·) 1 := by
+  induction ds generalizing a with
+  | nil => simp
+  | cons d ds ih =>
+    simp only [List.foldl_cons]
+    rw [ih (a * d), ih (1 * d)]
+    simp [Nat.mul_assoc]
+
+theorem prod_cons (d : Nat) (ds : List Nat) : prod (d :: ds) = d * prod ds := by
+  unfold prod
+  simp only [List.foldl_cons]
+  rw [prod_foldl]
+  simp
+
+theorem encode_foldl_lt (idx dims : List Nat) (h : Bounded idx dims) (acc : Nat) :
+    (List.zip dims idx).foldl (fun acc p => acc * p.1 + p.2) acc < (acc + 1) * prod dims := by
+  induction h generalizing acc with
+  | nil => simp [prod]
+  | @cons i d is ds hid _ ih =>
+    simp only [List.zip_cons_cons, List.foldl_cons]
+    have h1 := ih (acc * d + i)
+    rw [prod_cons]
+    have h2 : (acc * d + i + 1) * prod ds ≤ (acc * d + d) * prod ds := Nat.mul_le_mul_right _ (by omega)
+    have h3 : (acc * d + d) * prod ds = (acc + 1) * (d * prod ds) := by
+      rw [← Nat.mul_assoc, Nat.succ_mul]
+    omega
+
+/-- a multi-index inside the extents has its flat index inside the memory of the array -/
+theorem encode_lt (idx dims : List Nat) (h : Bounded idx dims) : encode dims idx < prod dims := by
+  have := encode_foldl_lt idx dims h 0
+  simpa [encode] using this
+
+theorem decode_cons (d : Nat) (ds : List Nat) (t : Nat) :
+    ∃ r, decode (d :: ds) t = (r % d) :: decode ds t := by
+  unfold decode
+  simp only [List.foldr_cons]
+  exact ⟨_, rfl⟩
+
+/-- the multi-index of any flat index lies inside (positive) extents -/
+theorem decode_bounded (dims : List Nat) (t : Nat) (hpos : ∀ d ∈ dims, 0 < d) : Bounded (decode dims t) dims := by
+  induction dims with
+  | nil => simp [decode]
+  | cons d ds ih =>
+    obtain ⟨r, hr⟩ := decode_cons d ds t
+    rw [hr]
+    exact List.Forall₂.cons (Nat.mod_lt _ (hpos d (by simp))) (ih (fun e he => hpos e (by simp [he])))
+
+/-- inserting an index `q < dims[dim]` at position `dim` into a multi-index inside the other extents -/
+theorem insert_bounded (dims : List Nat) (dim : Nat) (oi : List Nat) (q : Nat) (hd : dim < dims.length)
+    (hq : q < dims.getD dim 0) (h : Bounded oi (dims.eraseIdx dim)) :
+    Bounded (oi.take dim ++ [q] ++ oi.drop dim) dims := by
+  induction dims generalizing dim oi with
+  | nil => simp at hd
+  | cons d ds ih =>
+    cases dim with
+    | zero =>
+      simp only [List.eraseIdx_cons_zero, List.getD_cons_zero] at h hq
+      simp only [List.take_zero, List.nil_append, List.drop_zero, List.singleton_append]
+      exact List.Forall₂.cons hq h
+    | succ n =>
+      simp only [List.eraseIdx_cons_succ] at h
+      simp only [List.getD_cons_succ] at hq
+      cases h with
+      | cons ho hos =>
+        rename_i o os
+        simp only [List.take_succ_cons, List.drop_succ_cons, List.cons_append]
+        exact List.Forall₂.cons ho (ih n os (by simpa using hd) hq hos)
+
+/-- every element a reduction along dimension `dim` reads lies inside the operand -/
+theorem stripIdx_lt (dims : List Nat) (dim t : Nat) (hd : dim < dims.length) (hpos : ∀ d ∈ dims, 0 < d) :
+    ∀ i ∈ stripIdx dims dim t, i < prod dims := by
+  intro i hi
+  unfold stripIdx at hi
+  simp only [List.mem_map, List.mem_range] at hi
+  obtain ⟨q, hq, rfl⟩ := hi
+  apply encode_lt
+  apply insert_bounded dims dim _ q hd hq
+  apply decode_bounded
+  intro d hdm
+  exact hpos d (List.mem_of_mem_eraseIdx hdm)
+
+/-- every element `diag_vector(expression, o)` reads lies inside the `R × C` operand, for every diagonal that exists -/
+theorem diagIdx_lt (R C : Nat) (o : Int) (len : Nat) (hlen : (len : Int) ≤ diagLen R C o) :
+    ∀ i ∈ diagIdx C o len, i < R * C := by
+  intro i hi
+  unfold diagIdx at hi
+  simp only [List.mem_map, List.mem_range] at hi
+  obtain ⟨j, hj, rfl⟩ := hi
+  unfold diagLen at hlen
+  by_cases ho : o ≥ 0
+  · simp only [ho, if_true] at hlen ⊢
+    have h1 : j + 1 ≤ R := by omega
+    have h2 : j + o.toNat < C := by omega
+    have h3 : (j + 1) * C ≤ R * C := Nat.mul_le_mul_right C h1
+    have h4 : (j + 1) * C = j * C + C := Nat.succ_mul j C
+    omega
+  · simp only [ho, if_false] at hlen ⊢
+    have h1 : j + (-o).toNat + 1 ≤ R := by omega
+    have h2 : j < C := by omega
+    have h3 : (j + (-o).toNat + 1) * C ≤ R * C := Nat.mul_le_mul_right C h1
+    have h4 : (j + (-o).toNat + 1) * C = (j + (-o).toNat) * C + C := Nat.succ_mul _ C
+    omega
 
 end Adept.Misuse
